@@ -262,7 +262,7 @@ def gen_pps(rng, sps, pps_id=None, force=None):
     p["rects"] = rects
     p["change_dir"] = rng.random() < 0.5
     p["change_rate_minus1"] = pick(rng, [0, size - 1])
-    npix = pick(rng, [0, 1, 5, 17])
+    npix = force.get("npix", pick(rng, [0, 1, 5, 17]))
     p["pic_size_in_map_units_minus1"] = npix
     bits = {1: 1, 2: 2, 3: 2, 4: 3, 5: 3, 6: 3, 7: 3}.get(n, 0)
     p["group_ids"] = [rng.randrange(0, 1 << bits) if bits else 0 for _ in range(npix + 1)]
